@@ -30,7 +30,7 @@ PAIRS = {
     "mt": ("MTReceivers", None, None, None, "single"),
     "dc": ("PotentialElectrode", "CurrentElectrode", "current_electrodes", "potential_electrodes", "dc"),
 }
-KINDS = {"link": 6, "bad_link": 3, "edit": 12, "components": 2, "copy": 6, "reopen": 4, "reopen_same": 1, "gc": 3, "drop": 2, "observe": 3}
+KINDS = {"link": 6, "bad_link": 3, "edit": 12, "components": 2, "copy": 6, "copy_holder": 1, "reopen": 4, "reopen_same": 1, "gc": 3, "drop": 2, "observe": 3}
 N_VERT = 6
 
 
@@ -98,6 +98,37 @@ class SurveyScenario(BaseScenario):
         out["rx"] = rx.uid
         out["px"] = px.uid if px is not None else None
         return out
+
+    def do_copy_holder(self, sim, wss, st, cfg, r, path):
+        """A group holding one linked pair (generic families) is copied: the copy holds one receivers and one partner object."""
+        from geoh5py import objects
+        from geoh5py.groups import ContainerGroup
+
+        rx_cls, px_cls, rx_attr, px_attr, family = PAIRS[cfg["pair"]]
+        if family in ("large", "dc") or not px_cls:
+            return "skipped"
+        ws = wss["A"]
+        n = len(st.setdefault("holders", []))
+        if n >= 2:
+            return "skipped"
+        verts = np.c_[np.arange(N_VERT, dtype=float), np.zeros(N_VERT), np.zeros(N_VERT)]
+        grp = ContainerGroup.create(ws, name=f"holder{n}")
+        px = getattr(objects, px_cls).create(ws, vertices=verts + 1.0, name=f"hpx{n}", parent=grp)
+        rx = getattr(objects, rx_cls).create(ws, vertices=verts, name=f"hrx{n}", parent=grp, **{rx_attr: px})
+        del rx, px
+        st["holders"].append(str(grp.uid))
+        target = wss["B"] if "B" in wss and wss["B"] is not None and r.random() < 0.5 else None
+        try:
+            new = grp.copy(parent=target) if target is not None else grp.copy()
+        except Exception as err:  # pylint: disable=broad-except
+            raise Violation("C12", "copy_raises", f"copying a group that holds a linked {cfg['pair']} pair raised {type(err).__name__}: {str(err)[:100]}",
+                            {"cls": "ContainerGroup", "exc": type(err).__name__, "pair": cfg["pair"]}) from None
+        kids = sorted(type(c).__name__ for c in new.children)
+        del new, grp
+        sim.probe("copy_group_holding_pair")
+        if kids != sorted([rx_cls, px_cls]):
+            raise Violation("C12", "copy_differs", f"the copy of a group holding one linked {cfg['pair']} pair holds {kids}", {"cls": "ContainerGroup", "field": "children", "pair_in_group": True})
+        return "ok"
 
     @staticmethod
     def get(ws, uid):
